@@ -1,5 +1,4 @@
-import Tibc.Lemmas.Msg
-import Tibc.World
+import Tibc.Lemmas.Origin
 /-
   C01 — Inbound packets are authentic: accepted only if the counterparty committed them.
   PROPERTY THEOREMS ONLY (helper lemmas live in `Tibc/Lemmas`).
@@ -39,6 +38,59 @@ theorem recv_rejected_unchanged (w : World) (c : Chain) (p : Packet) (π : Proof
   funext q
   simp [setChain, upd_apply]
   intro hq; rw [hq]
+
+/-! ### end to end: an accepted packet was really sent by its source chain -/
+
+/-- one operation keeps the origin invariant -/
+theorem step_originInv (w : World) (op : Op) (hi : OriginInv H w) : OriginInv H (step H Hc w op).1 := by
+  have hsent : ∀ x, ∃ l, ((step H Hc w op).1 x).core.sent = (w x).core.sent ++ l :=
+    fun x => (step_grow H Hc w op x).sent
+  have hco := step_commitOrigin H Hc w op
+  refine ⟨fun x => (step_grow H Hc w op x).name.trans (hi.name x), ?_, ?_⟩
+  · intro x k d hk
+    by_cases hx : x = op.chain
+    · subst hx
+      rcases hco k d hk with h1 | ⟨hsrc, data, hd, hm⟩ | ⟨q, cl, hh, sn, hc, hs, hkk⟩
+      · exact wasSent_mono H hsent (hi.store _ k d h1)
+      · refine ⟨data, hd, ?_⟩
+        have : k.src = op.chain := by rw [hsrc]; exact hi.name _
+        rw [this]; exact hm
+      · exact wasSent_mono H hsent (hi.snaps _ q cl hh sn hc hs k d hkk)
+    · rw [step_other H Hc w op x hx] at hk
+      exact wasSent_mono H hsent (hi.store x k d hk)
+  · intro x q cl hh sn hc hs k d hk
+    by_cases hx : x = op.chain
+    · subst hx
+      rcases step_snaps H Hc w op q cl hh sn hc hs with ⟨cl0, hc0, hs0⟩ | ⟨q', hq'⟩
+      · exact wasSent_mono H hsent (hi.snaps _ q cl0 hh sn hc0 hs0 k d hk)
+      · rw [hq'] at hk
+        exact wasSent_mono H hsent (hi.store q' k d hk)
+    · rw [step_other H Hc w op x hx] at hc
+      exact wasSent_mono H hsent (hi.snaps x q cl hh sn hc hs k d hk)
+
+theorem run_originInv (ops : List Op) : OriginInv H (run H Hc World.init ops) := by
+  suffices h : ∀ w, OriginInv H w → OriginInv H (run H Hc w ops) by
+    apply h
+    refine ⟨fun _ => rfl, fun x k d hk => ?_, fun x q cl hh sn hc _ => ?_⟩
+    · simp [World.init, State.init, Core.init, PStore.empty] at hk
+    · simp [World.init, State.init, Core.init] at hc
+  induction ops with
+  | nil => intro w hw; exact hw
+  | cons op ops ih => intro w hw; simp only [run, List.foldl_cons]; exact ih _ (step_originInv H Hc w op hw)
+
+/-- **End to end.** In every history of operations on any number of chains (light clients record,
+    at every update, the real state of the chain they track — the ideal boundary justified by
+    C07 / C08 / C17 / C18), whenever a chain accepts an inbound packet — directly from the source or
+    through a relay chain — the application of the packet's source chain really sent a packet under
+    exactly that `(source, destination, sequence)` whose data has the same commitment hash
+    (`H data' = H data`: the same data unless the hash collides). -/
+theorem recv_accepted_was_sent (ops : List Op) (c : Chain) (p : Packet) (π : Proof) (h : Nat) (t : String)
+    (hok : (deliver H Hc ((run H Hc World.init ops) c) (.recvPacket p π h t)).2 = .ok) :
+    ∃ data', H data' = H p.data ∧ (p.key, data') ∈ ((run H Hc World.init ops) p.src).core.sent := by
+  have hi := run_originInv H Hc ops
+  obtain ⟨_, _, cl, sn, hcl, _, _, hcons, _, hsn⟩ := recv_accepted_committed H Hc _ p π h t hok
+  obtain ⟨data', hd, hm⟩ := hi.snaps c _ cl h sn hcl hcons p.key _ hsn
+  exact ⟨data', hd.symm, hm⟩
 
 /-- Non-vacuity: a concrete world in which a receive is accepted. -/
 def exH : Data → Digest := fun d => match d with | .raw s => s | _ => ""
